@@ -5,10 +5,22 @@
 
 package utils
 
-// RenderString: text/template with missingkey=error (body not verified: third-party template engine)
+// RenderString: text/template with missingkey=error. The template engine itself is ASSUMED to honour the
+// option (a reference to a key missing from the map fails Execute); what is checked here is that the one
+// template that is parsed and executed was built with exactly that option (C10: an undefined variable fails).
 //@ func RenderString
 //@   nomod
+//@   ghostlocal topt *template.Template
+//@   ghostlocal tparsed *template.Template
 //@   ensures !exitOK(result#1)
+//@   callsite Option
+//@     requires #C10.missing-key-is-an-error len(arg0) == 1 && arg0[0] == "missingkey=error"
+//@     ghost topt = result
+//@   callsite Parse
+//@     requires #C10.parses-the-strict-template calls(Option) == 1 && recv == topt
+//@     ghost tparsed = result
+//@   callsite Execute
+//@     requires #C10.executes-the-strict-template calls(Parse) == 1 && recv == tparsed
 // envPair(k, v): the "k=v" string built by ConvertEnv (fmt.Sprintf is not modelled)
 //@ fun envPair(k string, v string) string
 // ConvertEnv: ASSUMED (map iteration + Sprintf): one pair per entry of the map, nothing else
